@@ -18,7 +18,9 @@ import (
 //	     paid = floor(rps'*locked) - debt; new debt = floor(rps'*locked').
 func verifFarmStep(op int) {
 	verifExpect("done", "refused")
-	h := int64(20)
+	// the operation runs in the middle of the pool's life or in the very block of its end height (the
+	// end-block handler of that block has not run yet: the pool is still queued and fully active)
+	h := int64(20 + 20*verifChoice("atEndHeight", 2))
 	e := newFmEnv(h)
 	zero, one := big.NewInt(0), big.NewInt(1)
 	w := verifPow2(64)
@@ -72,6 +74,14 @@ func verifFarmStep(op int) {
 		verifCover("refused")
 		verifAssert(modL1.Cmp(modL0) == 0 && modR1.Cmp(modR0) == 0 && col1.Cmp(col0) == 0 && wl1.Cmp(wl0) == 0 && wr1.Cmp(wr0) == 0, "refused operation moves nothing")
 		verifAssert(pool.TotalLptLocked.Amount.BigInt().Cmp(st.locked.BigInt()) == 0 && rule.RemainingReward.BigInt().Cmp(remaining.BigInt()) == 0, "refused operation leaves the pool unchanged")
+		if op == 1 {
+			// C05: a withdrawal up to the recorded stake never fails - as long as the budget covers the
+			// elapsed blocks (F5) and the collector covers the claim (the listed finding is about that)
+			releasedIfAny := verifMul(rpb.BigInt(), big.NewInt(gap))
+			budgetOK := remaining.BigInt().Cmp(releasedIfAny) >= 0
+			collectorOK := verifMul(col0, verifPow10(18)).Cmp(verifAdd(verifMul(rps.BigInt(), lockedA.BigInt()), verifPow10(18))) >= 0
+			verifAssert(!(amt.BigInt().Cmp(lockedA.BigInt()) <= 0 && budgetOK && collectorOK), "a withdrawal up to the recorded stake never fails")
+		}
 		return
 	}
 	verifCover("done")
